@@ -34,11 +34,12 @@ def classify(c):
         g, w = points(c.get("got")), points(c.get("want"))
         if c.get("got_err") or c.get("want_err"):
             return None
-        if all(k in g and g[k] == v for k, v in w.items()):
-            return "step-bucket-staleness-edge"      # only additional points: samples just older than the look-back
-        # inside `or` / `unless` / a binary operation the re-appearing sample changes or removes a point instead of adding
-        # one: accepted only when, at EVERY differing evaluation time, some stored sample is older than the look-back by
-        # less than one step for one of the offsets of the expression (the precondition of the recorded finding)
+        # a sample just older than the look-back re-appears after re-stamping: additional points (bare selectors), or inside
+        # `or` / `unless` / a binary operation a changed or removed point. Accepted only when, at EVERY differing evaluation time,
+        # some stored sample is older than the look-back by less than one step for one of the offsets of the expression (the
+        # precondition of the recorded finding). Correction of round 5: "only additional points" used to be accepted without this
+        # timing test, so a whole series selected by mistake (seed C17-e: job=~"^api|canary$" also returning api-gateway) was
+        # filed under the staleness edge whenever the statement was step-bucketed.
         offs = {0} | {int(n) * {"s": 1000, "m": 60000, "h": 3600000, "d": 86400000}[u] for n, u in re.findall(r"offset (\d+)([smhd])", c["expr"])}
         tss = [x["ts_ns"] // 1000000 for x in c["db"]["samples"]]
         differing = {k[1] for k in set(g) | set(w) if g.get(k) != w.get(k)}
@@ -116,6 +117,34 @@ def run(ck):
     parse_failed = [c for c in cases if c.get("parse_failed")]
     ck.obligation("every statement of the engine runs parses, renders back and has a value under the interpreter (%d statements)" % len(lines),
                   not badcode and not parse_failed, "codes %s parse failures %s" % (badcode[:5], [c["expr"] for c in parse_failed[:3]]))
+    # series selection of every statement, judged on its own (independent of the hint rewrites and of their recorded findings):
+    # the fingerprints a statement answers belong to stored metric series whose labels satisfy every matcher of a selector of the
+    # expression (labels.Matcher.Matches in the harness); for an expression with ONE selector and a statement without the
+    # modulo filter they are exactly the matching series with a metric sample inside the statement's own [from, to) window
+    wrong_sel = []
+    for c in usable:
+        sel = c.get("sel_fps")
+        if sel is None:
+            continue
+        union = set(f for fps in sel for f in fps)
+        for i, s in enumerate(c["sqls"]):
+            got = set(r["fp"] for r in rows.get((c["id"], i), []))
+            if not got <= union:
+                wrong_sel.append((c, s, "answers fingerprints %s of series no selector of the expression matches" % sorted(got - union)))
+                continue
+            m = re.search(r"\(\(samples\.timestamp_ns\) >= \((\d+)\)\) and \(\(samples\.timestamp_ns\) < \((\d+)\)\)", s)
+            if len(sel) == 1 and m and "timestamp_ms % " not in s:
+                lo, hi = int(m.group(1)), int(m.group(2))
+                want = set(x["fp"] for x in c["db"]["samples"] if x["fp"] in union and x["type"] in (2, 0) and lo <= x["ts_ns"] < hi)
+                if got != want:
+                    wrong_sel.append((c, s, "answers the series %s, the matching series with a sample in its window are %s" % (sorted(got), sorted(want))))
+    ck.obligation("engine statements answer exactly series that satisfy the matchers of a selector of the expression (%d queries)" % len(usable),
+                  not wrong_sel, "; ".join("%s: %s" % (c["expr"], d) for c, s, d in wrong_sel[:3]))
+    if wrong_sel:
+        c, s, d = min(wrong_sel, key=lambda x: (len(x[0]["db"]["samples"]), len(x[0]["expr"])))
+        ck.violation({"property": "C17", "part": "engine-selection", "kind": "a statement of a PromQL query " + d,
+                      "expr": c["expr"], "matchers": c.get("matchers"), "start_ms": c["start_ms"], "end_ms": c["end_ms"], "step_ms": c["step_ms"],
+                      "database": c["db"], "sql": s, "replay": "harness promeng --cases <case line> (phase A), statement evaluated by PromCase.engine_rows"})
     pb_in = os.path.join(ck.work, "promeng_b_in.jsonl")
     with open(pb_in, "w") as f:
         for c in usable:
